@@ -46,6 +46,8 @@ type Analysis struct {
 	depth  int
 	loopHd map[*ssa.BasicBlock]bool
 	res    func(ssa.Value) ssa.Value // nil at top level
+	// PhiFilter, if set, restricts which boolean phis may be auto-tracked as derived flags.
+	PhiFilter func(*ssa.Phi) bool
 	// ConstBind specialises string parameters to constants (e.g. elementName := "img").
 	ConstBind map[*ssa.Parameter]string
 }
@@ -429,7 +431,7 @@ func (A *Analysis) expandPhi(x *ssa.Phi) *F {
 		}
 		alts = append(alts, And(c, val))
 	}
-	return Or(alts...)
+	return DropInessential(Or(alts...))
 }
 
 // inlineCall summarises a call of an acyclic bool-returning module function as a formula.
@@ -544,6 +546,8 @@ type Query struct {
 	In      map[*ssa.BasicBlock][]uint64
 	nWords  int
 	Iter    int
+	pat     map[int][]uint64
+	fullC   []uint64
 }
 
 const MaxTracked = 18
@@ -574,28 +578,39 @@ func (A *Analysis) NewQuery(track []int) (*Query, error) {
 			set[t] = true
 		}
 	}
+	// derived flags: greatest set of boolean phis all of whose operands are formulas over tracked
+	// atoms, constants and other members of the set (loop-carried flags depend on themselves)
+	cand := map[int]bool{}
+	for i, at := range A.Atoms {
+		if at.Phi == nil || set[i] {
+			continue
+		}
+		if A.PhiFilter != nil && !A.PhiFilter(at.Phi) {
+			continue
+		}
+		cand[i] = true
+	}
 	for changed := true; changed; {
 		changed = false
-		for i, at := range A.Atoms {
-			if at.Phi == nil || set[i] {
-				continue
-			}
+		for i := range cand {
 			ok := true
-			for _, e := range at.Phi.Edges {
-				f := A.Cond(e)
+			for _, e := range A.Atoms[i].Phi.Edges {
 				m := map[int]bool{}
-				f.Atoms(m)
+				A.Cond(e).Atoms(m)
 				for k := range m {
-					if !set[k] && k != i {
+					if !set[k] && !cand[k] {
 						ok = false
 					}
 				}
 			}
-			if ok {
-				set[i] = true
+			if !ok {
+				delete(cand, i)
 				changed = true
 			}
 		}
+	}
+	for i := range cand {
+		set[i] = true
 	}
 	q := &Query{A: A, pos: map[int]int{}, Barrier: map[*ssa.BasicBlock]bool{}, Hooks: map[ssa.Instruction]func(uint32) []uint32{}, In: map[*ssa.BasicBlock][]uint64{}}
 	for i := range set {
@@ -647,14 +662,140 @@ func (q *Query) full() []uint64 {
 }
 
 func (q *Query) mask(f *F) []uint64 {
+	_, fs := q.tf(f)
+	out := make([]uint64, q.nWords)
+	full := q.full()
+	for i := range out {
+		out[i] = full[i] &^ fs[i]
+	}
+	return out
+}
+
+// pattern returns the bitset of assignments in which tracked position p is 1.
+func (q *Query) pattern(p int) []uint64 {
+	if q.pat == nil {
+		q.pat = map[int][]uint64{}
+	}
+	if s, ok := q.pat[p]; ok {
+		return s
+	}
 	s := make([]uint64, q.nWords)
 	n := uint32(1) << len(q.Tracked)
-	for a := uint32(0); a < n; a++ {
-		if f.Eval3(q.val(a)) != vF {
-			s[a/64] |= 1 << (a % 64)
+	if p < 6 {
+		var w uint64
+		for b := uint(0); b < 64; b++ {
+			if b>>uint(p)&1 == 1 {
+				w |= 1 << b
+			}
+		}
+		for i := range s {
+			s[i] = w
+		}
+		if n < 64 {
+			s[0] &= (1 << n) - 1
+		}
+	} else {
+		for i := range s {
+			if (i>>(uint(p)-6))&1 == 1 {
+				s[i] = ^uint64(0)
+			}
 		}
 	}
+	q.pat[p] = s
 	return s
+}
+
+// tf returns the sets of assignments in which f is definitely true / definitely false.
+func (q *Query) tf(f *F) (t, fs []uint64) {
+	full := q.fullSet()
+	switch f.Op {
+	case 'c':
+		if f.C {
+			return full, make([]uint64, q.nWords)
+		}
+		return make([]uint64, q.nWords), full
+	case 'a':
+		p, ok := q.pos[f.Atom]
+		if !ok {
+			return make([]uint64, q.nWords), make([]uint64, q.nWords)
+		}
+		pat := q.pattern(p)
+		neg := make([]uint64, q.nWords)
+		for i := range neg {
+			neg[i] = full[i] &^ pat[i]
+		}
+		return pat, neg
+	case '!':
+		t1, f1 := q.tf(f.Kids[0])
+		return f1, t1
+	case '&':
+		t = append([]uint64(nil), full...)
+		fs = make([]uint64, q.nWords)
+		for _, k := range f.Kids {
+			tk, fk := q.tf(k)
+			for i := range t {
+				t[i] &= tk[i]
+				fs[i] |= fk[i]
+			}
+		}
+		return t, fs
+	case '|':
+		t = make([]uint64, q.nWords)
+		fs = append([]uint64(nil), full...)
+		for _, k := range f.Kids {
+			tk, fk := q.tf(k)
+			for i := range t {
+				t[i] |= tk[i]
+				fs[i] &= fk[i]
+			}
+		}
+		return t, fs
+	}
+	return make([]uint64, q.nWords), make([]uint64, q.nWords)
+}
+
+func (q *Query) fullSet() []uint64 {
+	if q.fullC == nil {
+		q.fullC = q.full()
+	}
+	return q.fullC
+}
+
+// setBit returns the image of s under "bit p := v".
+func (q *Query) setBit(s []uint64, p int, v bool) []uint64 {
+	out := make([]uint64, len(s))
+	pat := q.pattern(p)
+	if p < 6 {
+		sh := uint(1) << uint(p)
+		for i, w := range s {
+			one := w & pat[i]
+			zero := w &^ pat[i]
+			if v {
+				out[i] = one | zero<<sh
+			} else {
+				out[i] = zero | one>>sh
+			}
+		}
+		return out
+	}
+	d := 1 << (uint(p) - 6)
+	for i, w := range s {
+		hi := (i>>(uint(p)-6))&1 == 1
+		if v {
+			if hi {
+				out[i] |= w
+			} else {
+				out[i+d] |= w
+			}
+		} else {
+			if hi {
+				out[i-d] |= w
+			} else {
+				out[i] |= w
+			}
+		}
+	}
+	return out
 }
 
 func (q *Query) forEach(s []uint64, fn func(a uint32)) {
@@ -672,6 +813,9 @@ func (q *Query) forEach(s []uint64, fn func(a uint32)) {
 
 // Filter restricts the state to assignments satisfying f (untracked atoms unknown => kept).
 func (q *Query) Filter(s []uint64, f *F) []uint64 {
+	if s == nil {
+		return nil
+	}
 	m := q.mask(f)
 	out := make([]uint64, len(s))
 	for i := range s {
@@ -692,6 +836,7 @@ func (q *Query) RunFrom(entries map[*ssa.BasicBlock][]uint64) {
 		k int
 	}
 	masks := map[edgeKey][]uint64{}
+	hookCache := map[edgeKey]func(uint32) []uint32{}
 	var work []*ssa.BasicBlock
 	var ents []*ssa.BasicBlock
 	for b := range entries {
@@ -741,7 +886,12 @@ func (q *Query) RunFrom(entries map[*ssa.BasicBlock][]uint64) {
 				continue
 			}
 			if q.EdgeHook != nil {
-				if h := q.EdgeHook(b, k); h != nil {
+				h, cached := hookCache[ek]
+				if !cached {
+					h = q.EdgeHook(b, k)
+					hookCache[ek] = h
+				}
+				if h != nil {
 					out2 := make([]uint64, len(st))
 					q.forEach(st, func(a uint32) {
 						for _, c := range h(a) {
@@ -751,6 +901,7 @@ func (q *Query) RunFrom(entries map[*ssa.BasicBlock][]uint64) {
 					st = out2
 				}
 			}
+			st = q.assignPhis(b, succ, st)
 			if succ.Dominates(b) { // back edge: forget atoms about values redefined in the loop
 				for _, t := range q.Tracked {
 					at := q.A.Atoms[t]
@@ -768,7 +919,6 @@ func (q *Query) RunFrom(entries map[*ssa.BasicBlock][]uint64) {
 					}
 				}
 			}
-			st = q.assignPhis(b, succ, st)
 			cur := q.In[succ]
 			if cur == nil {
 				cur = make([]uint64, q.nWords)
@@ -795,14 +945,11 @@ func (q *Query) RunFrom(entries map[*ssa.BasicBlock][]uint64) {
 }
 
 func (q *Query) forget(s []uint64, p int) []uint64 {
-	out := make([]uint64, len(s))
-	q.forEach(s, func(a uint32) {
-		a0 := a &^ (1 << uint(p))
-		a1 := a | 1<<uint(p)
-		out[a0/64] |= 1 << (a0 % 64)
-		out[a1/64] |= 1 << (a1 % 64)
-	})
-	return out
+	a, b := q.setBit(s, p, true), q.setBit(s, p, false)
+	for i := range a {
+		a[i] |= b[i]
+	}
+	return a
 }
 
 func (q *Query) assignPhis(pred, succ *ssa.BasicBlock, s []uint64) []uint64 {
@@ -835,28 +982,61 @@ func (q *Query) assignPhis(pred, succ *ssa.BasicBlock, s []uint64) []uint64 {
 	if len(as) == 0 {
 		return s
 	}
-	out := make([]uint64, len(s))
-	q.forEach(s, func(a uint32) {
-		// parallel assignment: evaluate all operands in the old assignment
-		cands := []uint32{a}
-		val := q.val(a)
-		for _, x := range as {
-			v := x.f.Eval3(val)
-			var next []uint32
-			for _, c := range cands {
-				if v == vT || v == vU {
-					next = append(next, c|1<<uint(x.p))
-				}
-				if v == vF || v == vU {
-					next = append(next, c&^(1<<uint(x.p)))
-				}
+	// parallel assignment: partition the old state by the (tri-state) values of all operands, then
+	// apply the bit updates to each part.
+	parts := [][]uint64{s}
+	type upd struct {
+		p   int
+		val int8
+	}
+	partUpd := [][]upd{nil}
+	for _, x := range as {
+		t, f := q.tf(x.f)
+		var np [][]uint64
+		var nu [][]upd
+		for pi, part := range parts {
+			pt, pf, pu := make([]uint64, len(part)), make([]uint64, len(part)), make([]uint64, len(part))
+			anyT, anyF, anyU := false, false, false
+			for i, w := range part {
+				pt[i] = w & t[i]
+				pf[i] = w & f[i]
+				pu[i] = w &^ t[i] &^ f[i]
+				anyT = anyT || pt[i] != 0
+				anyF = anyF || pf[i] != 0
+				anyU = anyU || pu[i] != 0
 			}
-			cands = next
+			if anyT {
+				np = append(np, pt)
+				nu = append(nu, append(append([]upd(nil), partUpd[pi]...), upd{x.p, vT}))
+			}
+			if anyF {
+				np = append(np, pf)
+				nu = append(nu, append(append([]upd(nil), partUpd[pi]...), upd{x.p, vF}))
+			}
+			if anyU {
+				np = append(np, pu)
+				nu = append(nu, append(append([]upd(nil), partUpd[pi]...), upd{x.p, vU}))
+			}
 		}
-		for _, c := range cands {
-			out[c/64] |= 1 << (c % 64)
+		parts, partUpd = np, nu
+	}
+	out := make([]uint64, len(s))
+	for pi, part := range parts {
+		cur := part
+		for _, u := range partUpd[pi] {
+			switch u.val {
+			case vT:
+				cur = q.setBit(cur, u.p, true)
+			case vF:
+				cur = q.setBit(cur, u.p, false)
+			default:
+				cur = q.forget(cur, u.p)
+			}
 		}
-	})
+		for i := range out {
+			out[i] |= cur[i]
+		}
+	}
 	return out
 }
 
@@ -915,18 +1095,20 @@ func (q *Query) Reachable(b *ssa.BasicBlock) bool {
 // Holds decides whether goal is definitely true in every assignment of state s; on failure a
 // falsifying assignment is rendered.
 func (q *Query) Holds(s []uint64, goal *F) (bool, string) {
-	ok := true
-	cex := ""
-	q.forEach(s, func(a uint32) {
-		if !ok {
-			return
+	if s == nil {
+		return true, ""
+	}
+	t, _ := q.tf(goal)
+	for i, w := range s {
+		if bad := w &^ t[i]; bad != 0 {
+			b := uint32(0)
+			for bad&(1<<b) == 0 {
+				b++
+			}
+			return false, q.Render(uint32(i*64) + b)
 		}
-		if goal.Eval3(q.val(a)) != vT {
-			ok = false
-			cex = q.Render(a)
-		}
-	})
-	return ok, cex
+	}
+	return true, ""
 }
 
 // Render prints an assignment.
